@@ -258,6 +258,13 @@ def r1_line_comment_discipline(w):
             r.ok(cons, 'the %s arm builds a hardline' % variant)
         else:
             r.bad(cons, '%s|linebreak-arm' % name, 'the %s arm of %s does not produce a hard line break' % (variant, name), b.loc())
+    # the per-item flag the printer's exception relies on is the line-comment flag of the free comments *as the comment loop left it*
+    for line in _attached_flag_obligations(w):
+        ok, cons, key, why, loc = line
+        if ok:
+            r.ok(cons, why)
+        else:
+            r.bad(cons, key, why, loc)
     # list stylist printer
     for line in _list_printer_obligations(w, list_mech or {'A'}):
         ok, cons, key, why, loc = line
@@ -266,6 +273,100 @@ def r1_line_comment_discipline(w):
         else:
             r.bad(cons, key, why, loc)
     return r
+
+
+def _attached_flag_obligations(w):
+    """[(ok, construct, key, why, loc)]: where the list stylist attaches the free comments to the last item it records whether they end with a line
+    comment (`after_ends_with_line_comment = free_ends_with_line_comment`); the printer omits the hard break after the last item of a tight list
+    only when that flag is false.  The copied value has to be the one the comment loop left: no write to the source flag may come between the entry
+    of the attaching function and the read (seed C06/5B: a helper that hands out the free comments also cleared the flag, before it was read).
+    Judged on the attaching function with the stylist's own helpers expanded."""
+    import inline
+    from prov import place_key
+    from tyutil import name_projection
+    out = []
+    SRC, DST = 'free_ends_with_line_comment', 'after_ends_with_line_comment'
+
+    def field_stores(b, suffix):
+        res = []
+        refs = set()       # locals holding `&mut <place ending in the field>` (a binding of a pattern: `Item::Commented { flag, .. } => *flag = ..`)
+        for bi, blk in enumerate(b.blocks):
+            for st in blk['stmts']:
+                if st['s'] == 'assign' and st['rv'].get('r') == 'ref' and st['rv'].get('p', {}).get('proj') and not st['p']['proj']:
+                    l, pr = place_key(st['rv']['p'])
+                    steps, _ = name_projection(w, b.locals[l]['ty'], pr)
+                    if steps and steps[-1].endswith(suffix):
+                        refs.add(st['p']['l'])
+        for bi, blk in enumerate(b.blocks):
+            if blk['cleanup']:
+                continue
+            for st in blk['stmts']:
+                if st['s'] == 'assign' and st['p']['proj']:
+                    if st['p']['l'] in refs and st['p']['proj'] == [{'p': 'deref'}]:
+                        res.append((bi, st))
+                        continue
+                    l, pr = place_key(st['p'])
+                    steps, _ = name_projection(w, b.locals[l]['ty'], pr)
+                    if steps and steps[-1].endswith(suffix):
+                        res.append((bi, st))
+        return res
+    fns = [b for b in w.fn_bodies(w.core) if b.def_kind != 'Closure' and 'layout::list' in b.short]
+    writers = [b for b in fns if field_stores(b, DST) and not b.short.endswith('::new')]
+    attach = [b for b in writers if any(st['rv']['r'] == 'use' and st['rv']['op'].get('o') in ('copy', 'move') for _, st in field_stores(b, DST))]
+    if not attach:
+        if not any(field_stores(b, SRC) for b in fns):
+            return out          # the stylist has no such flag (another mechanism): nothing to relate
+        out.append((False, {'flag': DST}, 'list-stylist|attached-flag|anchor', 'the function that copies %s into %s was not found' % (SRC, DST), None))
+        return out
+    for b0 in attach:
+        b = inline.inline_body(w, b0, lambda f, t_, d_: f.crate is w.core and 'layout::list' in f.short and f.def_kind in ('Fn', 'AssocFn') and f.id != b0.id, desugar=False)
+        v = BodyView(w, b)
+        src_writes = {bi for bi, _ in field_stores(b, SRC)}
+        for bi, st in field_stores(b, DST):
+            if st['rv']['r'] != 'use' or st['rv']['op'].get('o') not in ('copy', 'move'):
+                continue
+            cons = {'fn': b0.short, 'copies': '%s <- %s' % (DST, SRC)}
+            # blocks that read the source flag for this store
+            reads = set()
+            for o in v.pv.origins_operand(st['rv']['op']):
+                d_ = v.describe(o)
+                if SRC in d_:
+                    reads.add(bi if o[0] != 'field' else bi)
+            if not any(SRC in v.describe(o) for o in v.pv.origins_operand(st['rv']['op'])):
+                out.append((False, cons, 'list-stylist|attached-flag|source', 'the value stored into %s in %s is not the stylist\'s %s' % (DST, b0.short, SRC), b0.loc()))
+                continue
+            # the read happens in the block of the copy (or in one that dominates it): is a write to the source flag reachable before it?
+            before = set()
+            seen, work = set(), [0]
+            # forward reachability from the entry that stops at the block of the store: every block on some path entry -> store
+            can_reach = set()
+            rev = {}
+            for x in range(len(b.blocks)):
+                for y in b.succs(x):
+                    rev.setdefault(y, set()).add(x)
+            work = [bi]
+            while work:
+                x = work.pop()
+                if x in can_reach:
+                    continue
+                can_reach.add(x)
+                work.extend(rev.get(x, ()))
+            work = [0]
+            while work:
+                x = work.pop()
+                if x in seen or x not in can_reach:
+                    continue
+                seen.add(x)
+                work.extend(b.succs(x))
+            clobber = sorted(x for x in src_writes if x in seen and x != bi)
+            if clobber:
+                out.append((False, cons, 'list-stylist|attached-flag|clobbered',
+                            'in %s the stylist\'s %s is written (block(s) %s, e.g. in an expanded helper) on a path before it is copied into the item\'s %s: the item then never '
+                            'records that its attached comments end with a line comment, and the hard break after the last item of a tight list is omitted - the closing delimiter '
+                            'lands on the comment\'s line' % (b0.short, SRC, clobber[:3], DST), b0.loc()))
+            else:
+                out.append((True, cons, 'list-stylist|attached-flag', 'the flag is copied as the comment loop left it (no write to it on a path from the entry to the copy)', b0.loc()))
+    return out
 
 
 SUBSEQ = re.compile(r'(slice::<impl \[T\]>::(get|split_first|split_last|split_at)|Index<.*Range.*>>::index|Iterator>?::(position|rposition))$')
@@ -549,7 +650,19 @@ def r4_hash_mode(w):
     return r
 
 
-RULES = [r1_line_comment_discipline, r2_optional_delimiters_paired, r3_token_separation, r4_hash_mode]
+def r5_no_token_dropped(w):
+    """= C01.R2: a token that is dropped lets its neighbours touch - `$x^#2;n$` without its `;` reads `#2n` (seed C04/5B); a dropped delimiter or
+    separator leaves the rest unparsable"""
+    from rules import c01
+    rs = c01.r2_no_significant_child_dropped(w)
+    rs.rule = 'C04.R5'
+    for f in rs.findings:
+        f.rule = 'C04.R5'
+        f.key = f.key.replace('C01.R2|', 'C04.R5|', 1)
+    return rs
+
+
+RULES = [r1_line_comment_discipline, r2_optional_delimiters_paired, r3_token_separation, r4_hash_mode, r5_no_token_dropped]
 for _f in RULES:
     _f.needs = ('core',)
 MATRIX_RULES = [r2_optional_delimiters_paired]
